@@ -59,7 +59,7 @@ FAMILIES = {
         ("edges4", fam(N=4, MinN=4, LabelSet=FIVE, KeyMode="closed")),
         ("edges4any", fam(N=4, MinN=4, LabelSet=("none", "req", "g1"), MaxAdds=1)),
         ("kinds3", fam(N=3, KindSet=("comp", "ds", "point"), LabelSet=("none", "req", "g1"), PrioSet=(0, 1, 2), MaxAdds=2,
-                       AskSet=("basic", "sub"))),
+                       AskSet=("basic", "sub", "walk"))),
         ("kinds4", fam(N=4, MinN=4, KindSet=("comp", "ds", "point"), PrioSet=(0, 2), MaxAdds=2, AskSet=("basic", "sub"),
                        KeyMode="all")),
         ("types3", fam(N=3, TypSet=("base", "sub"), GrpSet=(1, 2), LabelSet=("none", "req", "g1"), MaxAdds=1,
